@@ -144,6 +144,33 @@ func (a AlterTableOperation) Children() []Node {
 	if a.AlterColumnOp != nil {
 		children = append(children, a.AlterColumnOp)
 	}
+	if a.ColumnPosition != nil && a.ColumnPosition.After != nil {
+		children = append(children, a.ColumnPosition.After)
+	}
+	if a.ProjectionName != nil {
+		children = append(children, a.ProjectionName)
+	}
+	if a.PartitionName != nil {
+		children = append(children, a.PartitionName)
+	}
+	if a.OldColumnName != nil {
+		children = append(children, a.OldColumnName)
+	}
+	if a.NewColumnName != nil {
+		children = append(children, a.NewColumnName)
+	}
+	if a.ConstraintName != nil {
+		children = append(children, a.ConstraintName)
+	}
+	if a.OldName != nil {
+		children = append(children, a.OldName)
+	}
+	if a.NewName != nil {
+		children = append(children, a.NewName)
+	}
+	if a.ColumnName != nil {
+		children = append(children, a.ColumnName)
+	}
 	return children
 }
 
